@@ -40,7 +40,7 @@ def generic_shards(ctx, ops):
     if not q:
         g("g16p", 16, 16, 84, 15, [1], [0, 3, 15], ["sparse"])
     # the bit-level mask formulas of vector.rs (sensible and NEON) implement the lane-set operations the L-models use
-    S.append(("vecops", "MC_VecOps", dict(LANES=7 if q else 8), [], 2))
+    S.append(("vecops", "MC_VecOps", dict(LANES=6 if q else 7), [], 2))
     return S
 
 
@@ -389,7 +389,7 @@ def pp_shards(ctx, emit=True, small=False):
                                       (2, "neon", 2, 3, 5 - d, {0, 1}), (4, "neon", 2, 3, (6 if q else 8) - d, {0, 1}), (2, "sensible", 2, 3, (3 if q else 4) - (1 if d else 0), {0, 1, 2})):
         S.append(("pp%d%s%d" % (vb, mk[0], len(alpha)), "MC_PackedPair",
                   sub(K_PAIR, MASKKIND=mk, VB=vb, Alpha=alpha, MinN=mn, MaxN=mx, Extra=ex, Emit=emit and mk == "sensible"), PP_INV, 4))
-    S.append(("vecops", "MC_VecOps", dict(LANES=7 if q else 8), [], 2))
+    S.append(("vecops", "MC_VecOps", dict(LANES=6 if q else 7), [], 2))
     return S
 
 
